@@ -367,6 +367,10 @@ class ErrorTask(Task):
         self.response_headers.extend(headers)
         self.set_close_on_finish()
         self.content_length = len(body)
+        if getattr(self.request, "command", None) == "HEAD":
+            # a response to HEAD never has a body; the head still announces the
+            # length the body would have
+            body = b""
         self.write(body)
 
 
